@@ -199,6 +199,10 @@ class Gen:
                 case = g(self.rng, True, lowbank=(True if k % 5 == 4 else False))
             else:
                 case = g(self.rng, True)
+            if k % 4 == 3 and case.states and not case.meta.get('decay'):
+                # SMALL positive stores (a guaranteed share, whatever the seed): stored masses in (0, 1] kg carried into a run or
+                # across a cut sit next to the conventions some kernels attach to the sign and size of a stored value
+                case.states = [self.rng.choice([0.25, 0.5, 1.0, self.rng.random(), 1e-3]) if v >= 0 else v for v in case.states]
             out.append(mkcase(model, case.params, case.states, case.inputs, c12=case, dt=case.dt,
                               decay=bool(case.meta.get('decay'))))
         return out
@@ -441,38 +445,21 @@ def cancellation_conditioned(drv, cs, make_line, parser, impl_results, model_res
     input value multiplied by 1 +- delta with its own sign (delta 1e-14 and 1e-13, four draws each, deterministic in the
     case), the extracted kernel run on each, and rrlib.conditioned_agree with the model's own tolerances deciding.
     -> None (explained) or a description"""
-    # only OUTSIDE the domain the kernels were written for (a negative state or input value, which C14 alone draws): inside
-    # it the comparison stays strict, as it always was - a value sitting exactly on a comparison threshold responds
-    # discontinuously to any perturbation, and a disagreement exactly there is what a changed comparison looks like
-    if not (any(v < 0 for v in cs['states']) or any(v < 0 for row in cs['inputs'] for v in row)):
+    import condlib
+    why = condlib.out_of_domain(cs['model'], cs['params'], cs['states'], cs['inputs'], model_results[0] if model_results else None)
+    if why is None:
         return 'in-domain case: no sensitivity allowance'
-    import random as _random
-    r = _random.Random(repr((cs['model'], cs['params'], cs['states']))[:400])
-    pcs, weights = [], []
-    for delta in (1e-14, 1e-13):
-        for _ in range(4):
-            f = lambda v: v * (1.0 + delta * r.choice((-1.0, 1.0)))
-            pcs.append(dict(cs, params=[f(v) for v in cs['params']], states=[f(v) for v in cs['states']],
-                            inputs=[[f(v) for v in row] for row in cs['inputs']]))
-            weights.append(1e-14 / delta)
-    res = run_filtered(drv, [make_line(pc) for pc in pcs], 'MODELCRASH')
+    pcs = condlib.perturbed(cs['params'], cs['states'], cs['inputs'], cs.get('alt'), key=cs['model'])
+    lines = [make_line(dict(cs, params=p2, states=s2, inputs=i2, **({'alt': a2} if a2 is not None else {}))) for (_, p2, s2, i2, a2) in pcs]
+    res = run_filtered(drv, lines, 'MODELCRASH')
     rpss = [parser(x) for x in res]
-    keep = [(w, rps) for w, rps in zip(weights, rpss) if rps is not None and len(rps) == len(model_results)]
-    if not keep:
-        return 'perturbed model runs failed: %s' % res[0][:80]
-    amp = 0.0
+    weights = [w for (w, _, _, _, _) in pcs]
     for k, (ri, rm) in enumerate(zip(impl_results, model_results)):
-        mag = 0.0
-        if ri[0] == 'OK':
-            mag = max([abs(x) for row in ri[1] for x in row if x == x and abs(x) != float('inf')] + [0.0])
-        inf = {}
-        d = rrlib.conditioned_agree(ri, rm, [rps[k] for _, rps in keep], 1e-9, 1e-12 * mag + 1e-300, info=inf, weights=[w for w, _ in keep])
+        d = condlib.explained(ri, rm, [rps[k] if rps is not None and len(rps) == len(model_results) else None for rps in rpss], weights, info=info)
         if d:
+            if os.environ.get('VERIF_DEBUG_COND'):
+                sys.stderr.write('COND %s why=%s -> %s ; perturbed ok: %d of %d ; first: %s\n' % (cs['model'], why, d[:200], sum(1 for r in rpss if r), len(rpss), res[0][:80]))
             return d
-        amp = max(amp, inf.get('amplification', 0.0))
-    if info is not None:
-        info['amplification'] = amp
-        info['perturbed_runs'] = len(keep)
     return None
 
 
